@@ -42,7 +42,8 @@
    "defs": [
     "ALIAS_CA=1"
    ],
-   "tier": "thorough"
+   "tier": "parked",
+   "parked_reason": "cbmc reports status ERROR for s_pstm_add.assigns.4 (write-set check with c aliasing a) at the thorough size"
   }
  ],
  "native_replay": true,
